@@ -111,7 +111,7 @@ pub fn check(tier: Tier) -> Check {
         also_rel: false,
         property: "C17",
         level: "model_checking",
-        rule: "all histories of QoS 1/2 publishes, pings, subscribes, unsubscribes and their acknowledgements (success / failing) up to the stated depth; the connection is lost (EOF) after every prefix; in three parts operation futures are additionally held back, polled spuriously or dropped (deviations), so that the loss also falls between the PUBREC and the moment the QoS 2 future queues its PUBREL; the hook records the disconnection secs_ago seconds ago; set_up + connect (same options) + run on a fresh transport; the second wire must show CONNECT followed by exactly the unfinished PUBLISH (DUP=1, same id and content) / PUBREL packets in original order when the session has not expired, nothing when it has; then the acknowledgements arrive on the new connection and a fresh publish follows; session expiry in {0, 1000 s, never} x secs_ago in {10, 100000}, six (interval, elapsed) pairs of larger magnitude (a day, 120 days, just above 2^32 ms, 2^32 - 2 s; elapsed up to 5 * 10^9 s), and four combinations in which the CONNACK states a different Session Expiry Interval than the CONNECT (the broker's is the one in force); non-trivial = something had to be re-sent or an expired session had abandoned operations".into(),
+        rule: "all histories of QoS 1/2 publishes, pings, subscribes, unsubscribes and their acknowledgements (success / failing) up to the stated depth; the connection is lost (EOF) after every prefix; in three parts operation futures are additionally held back, polled spuriously or dropped (deviations), so that the loss also falls between the PUBREC and the moment the QoS 2 future queues its PUBREL; the hook records the disconnection secs_ago seconds ago; set_up + connect (same options) + run on a fresh transport; the second wire must show CONNECT followed by exactly the unfinished PUBLISH (DUP=1, same id and content) / PUBREL packets in original order when the session has not expired, nothing when it has; then the acknowledgements arrive on the new connection and a fresh publish follows; session expiry in {0, 1000 s, never} x secs_ago in {10, 100000}, six (interval, elapsed) pairs of larger magnitude (a day, 120 days, just above 2^32 ms, 2^32 - 2 s; elapsed up to 5 * 10^9 s), and four combinations in which the CONNACK states a different Session Expiry Interval than the CONNECT (the broker's is the one in force); sessions resumed twice (also with abandoned futures in the history); 17 .. 300 unfinished handshakes (C17/bulk); the resume run under every write script over a write half that gathers vectored writes; connections opened by extended authentication; first connection ended by the user's / the server's DISCONNECT or a read error; value flavour; non-trivial = something had to be re-sent or an expired session had abandoned operations".into(),
         assumptions: vec![
             "same ConnectOpts on both connections; secs_ago is >= 100 s away from the expiry boundary (the wall clock is not behind a seam)".into(),
             "the disconnection is recorded by the cfg(poster_verif) hook, production code never records it".into(),
